@@ -102,7 +102,7 @@ func caseChainID(c *vf.Ctx, i int) {
 		}
 	}
 	if i < 2 {
-		c.Sample(map[string]interface{}{"kind": "chainid", "cid": cid.ToJSON(), "bytes": vf.Hex(b)})
+		out.Sample(map[string]interface{}{"kind": "chainid", "cid": cid.ToJSON(), "bytes": vf.Hex(b)})
 	}
 }
 
@@ -145,7 +145,7 @@ func caseGenesis(c *vf.Ctx, i int) {
 		}
 		a.ev++
 		if !eq {
-			a.viol("rt/genesis/field="+f.Name, fmt.Sprintf("genesis field %s: wrote %v, read back %v", f.Name, v1.FieldByIndex(f.Index).Interface(), v2.FieldByIndex(f.Index).Interface()))
+			a.viol("rt/genesis/field="+f.Name, fmt.Sprintf("genesis field %s: wrote %s, read back %s", f.Name, show(v1.FieldByIndex(f.Index)), show(v2.FieldByIndex(f.Index))))
 		}
 	}
 	// the genesis block carries the encoded chain id
@@ -171,7 +171,7 @@ func callIsFork(cfg *config.HardforkConfig, ver int32, h uint64) (bool, bool) {
 func runHardfork(c *vf.Ctx) {
 	fs := hfFields()
 	if len(fs) == 0 {
-		c.Inconclusive("no Vk fields found in config.HardforkConfig")
+		out.Inconclusive("no Vk fields found in config.HardforkConfig")
 		return
 	}
 	const large = uint64(1) << 62
@@ -190,7 +190,7 @@ func runHardfork(c *vf.Ctx) {
 	dir := c.Scratch() + "/hfdb"
 	cdb := chain.NewChainDB()
 	if err := cdb.Init("memorydb", dir, nil); err != nil {
-		c.Inconclusive("ChainDB.Init: " + err.Error())
+		out.Inconclusive("ChainDB.Init: " + err.Error())
 		return
 	}
 	persisted := make([]config.HardforkDbConfig, len(seqs))
@@ -224,14 +224,14 @@ func runHardfork(c *vf.Ctx) {
 		}
 		// persisted form, through a close/reopen of the chain DB
 		if err := cdb.WriteHardfork(cfg); err != nil {
-			c.Inconclusive("WriteHardfork: " + err.Error())
+			out.Inconclusive("WriteHardfork: " + err.Error())
 			return
 		}
 		before := cdb.Hardfork(*cfg)
 		cdb.Close()
 		cdb = chain.NewChainDB()
 		if err := cdb.Init("memorydb", dir, nil); err != nil {
-			c.Inconclusive("ChainDB.Init (reopen): " + err.Error())
+			out.Inconclusive("ChainDB.Init (reopen): " + err.Error())
 			return
 		}
 		db := cdb.Hardfork(*cfg)
